@@ -485,7 +485,14 @@ def every_biomass_system_declares_output(ev, r, rep, tag, where):
                     if lp.op == "loop_pick" and isinstance(lp.a[1], tm.T) and lp.a[1].op == "adt" and lp.a[1].a[1] == 1:
                         info = ev.loops_info.get(lp.a[0])
                         if info is not None:
-                            cands.append((info["iter"], info["elem"], [c for c in conjuncts(g) if info["elem"] in tm.free_syms(c)]))
+                            el_ = info["elem"]
+                            cs = [c for c in conjuncts(g) if el_ in tm.free_syms(c)]
+                            # the exit test may sit inside a disjunction (the same Err leaf merged with another error)
+                            for c in list(cs):
+                                for t in tm.subterms(c):
+                                    if t.op == "not" and t.a[0].op == "any" and el_ in tm.free_syms(t) and t not in cs:
+                                        cs.append(t)
+                            cands.append((info["iter"], el_, cs))
                 for c in conjuncts(g):
                     # any(ids, λ id. not any(data, p(id)))   /   not all(ids, λ id. any(data, p(id)))
                     t = c
